@@ -339,15 +339,16 @@ func (n *branch) prove(m *mpt, keys []byte, proof [][]byte) (nn node, obj trie.O
 	}
 
 	if len(keys) == 0 {
-		if n.value != nil {
-			value, changed, err := m.getObject(n.value)
-			if err != nil {
-				return n, nil, err
-			}
-			if changed {
-				lock.Migrate()
-				n.value = value
-			}
+		if n.value == nil {
+			return n, nil, common.ErrNotFound
+		}
+		value, changed, err := m.getObject(n.value)
+		if err != nil {
+			return n, nil, err
+		}
+		if changed {
+			lock.Migrate()
+			n.value = value
 		}
 		return n, n.value, nil
 	}
